@@ -37,6 +37,25 @@ def gen_workload(rnd, kind=None, max_ops=400):
         einsums = [_mm("E0", "T0", "W0", "T1", "m", "n0", "n1"), _mm("E1", "T1", "W1", "T2", "m", "n1", "n2"),
                    _mm("E2", "T2", "W2", "T3", "m", "n2", "n3")]
         rvs = ["m", "n0", "n1", "n2", "n3"]
+    elif kind in ("bchain2", "bchain3"):
+        # batched matmul chain: intermediates carry TWO ranks (b, m) that can both be fused; the weights pick
+        # up b, m or neither so the per-Einsum tables differ in which shared loops are relevant to them
+        n = int(kind[-1])
+        einsums = []
+        for i in range(n):
+            extra = rnd.choice([[], ["b"], ["m"], []])
+            einsums.append({"name": f"E{i}", "tensors": [
+                {"name": f"T{i}", "proj": ["b", "m", f"n{i}"], "out": False},
+                {"name": f"W{i}", "proj": extra + [f"n{i}", f"n{i + 1}"], "out": False},
+                {"name": f"T{i + 1}", "proj": ["b", "m", f"n{i + 1}"], "out": True}]})
+        rvs = ["b", "m"] + [f"n{i}" for i in range(n + 1)]
+    elif kind == "pshare2":
+        # a tensor P read by BOTH Einsums of a chain (meant to be declared persistent)
+        einsums = [_mm("E0", "P", "W0", "T1", "m", "n0", "n1"),
+                   {"name": "E1", "tensors": [{"name": "T1", "proj": ["m", "n1"], "out": False},
+                                              {"name": "P", "proj": ["m", "n0"], "out": False},
+                                              {"name": "T2", "proj": ["m", "n1"], "out": True}]}]
+        rvs = ["m", "n0", "n1"]
     elif kind == "fanin2":
         einsums = [_mm("E0", "X", "W0", "Y0", "m", "k", "n0"), _mm("E1", "X", "W1", "Y1", "m", "k", "n1")]
         rvs = ["m", "k", "n0", "n1"]
@@ -50,7 +69,7 @@ def gen_workload(rnd, kind=None, max_ops=400):
         rvs = ["na", "ny", "nz"]
     else:
         raise ValueError(kind)
-    pool = BOUNDS if len(einsums) == 1 else [2, 3, 4, 6]
+    pool = BOUNDS if len(einsums) == 1 else ([2, 2, 3, 4] if kind.startswith("bchain") else [2, 3, 4, 6])
     for _ in range(50):
         ranks = {rv: rnd.choice(pool) for rv in rvs}
         ops = max(math.prod(ranks[v] for t in e["tensors"] for v in t["proj"] if True) for e in einsums)
